@@ -301,7 +301,7 @@ def main(rep, tier, only):
         if key in seen:
             continue
         seen.add(key)
-        rets = [T.show(T.norm(u, r.get("e"))) for r in F.walk(fn.get("body"), into_lambdas=False) if r.get("k") == "return"]
+        rets = [T.show(T.snorm(u, fn, r.get("e"))) for r in F.walk(fn.get("body"), into_lambdas=False) if r.get("k") == "return"]
         ok = len(rets) == 1 and rets[0] == want[k]
         (rep.ok if ok else rep.fail)("ACC", key, F.primary_site(fn), F.describe(fn)[:160],
                                      **({"how": rets[0]} if ok else {"why": "%s returns %s, the box's representation contract says %s" % (key, rets, want[k])}))
